@@ -62,6 +62,19 @@ pub fn run(thorough: bool, seed: u64, _replay: Option<String>) -> Report {
         b.extend_from_slice("…fin: déjà vu, naïve café, Ünïcödé at the very end".as_bytes());
         contents.push((b, Sett::default(), format!("size-{}-utf8-tail", len)));
     }
+    // sizes that are exact multiples of common block sizes (a reader that works in blocks must not lose the last one)
+    for (k, len) in [4096usize, 8192, 32768, 65536, 131072, 196608, 262144, 1 << 20].iter().enumerate() {
+        if !thorough && ![65536usize, 131072, 8192].contains(len) {
+            continue;
+        }
+        let unit: &[u8] = if k % 2 == 0 { b"Block after block of plain text, line by line.\n" } else { "Bl\u{f6}cke \u{fc}ber Bl\u{f6}cke, Zeile f\u{fc}r Zeile.\n".as_bytes() };
+        let b: Vec<u8> = unit.iter().cycle().take(*len).cloned().collect();
+        let mut s = Sett::default();
+        if *len > 300_000 {
+            s.incl = vec!["ascii".into(), "utf-8".into(), "windows-1252".into()];
+        }
+        contents.push((b, s, format!("size-multiple-of-block:{}", len)));
+    }
     // files beyond the limits whose *head* is unusual – NUL-separated listings, control characters, UTF-16 without a mark,
     // a head that looks nothing like the rest – with valid and with unknown filter names: whatever a reader might
     // conclude from peeking at the first block must be what the whole content gives
